@@ -53,6 +53,14 @@ def run(R, pid, tier, seed):
         _guard(R, pid, "apply", lambda: bisynclib.apply_obligations(ctx, R, prover, pid))
         # a stale recorded state makes a LATER run delete a re-created file: the run-level record obligation is C02's too
         _guard(R, pid, "run_bisync", lambda: bisynclib.run_obligations(ctx, R, prover, pid, U))
+        try:
+            t = bisyncnative.type_clash_check(R, "C02/apply", "C02/apply/file-vs-directory")
+            if t["confirmed"]:
+                R.add("C02/native-type-clash", "violated", confirmed=True, replay_path=t["replay_path"], key=t["key"], detail=t["detail"])
+            else:
+                R.add("C02/native-type-clash", "holds", queries=0, solver_s=0.0, detail=t["detail"] + " (validation, not the deciding step)")
+        except Inconclusive as e:
+            R.add("C02/native-type-clash", "inconclusive", detail=str(e)[:300])
     elif pid == "C06":
         R.assumptions += ["apply's effect on the common map is decided here at step level and then USED as a contract inside the run_bisync obligation (compositional)",
                           "mtime-independence and order-independence of the DECISION are C18's symmetry / equality-only obligations; the winner rule (greater BLAKE3) is decided here",
@@ -78,6 +86,14 @@ def run(R, pid, tier, seed):
         _guard(R, pid, "apply", lambda: bisynclib.apply_obligations(ctx, R, prover, pid))
         _guard(R, pid, "Archive::save", lambda: bisynclib.save_obligations(ctx, R, prover, pid))
         _guard(R, pid, "run_bisync", lambda: bisynclib.run_obligations(ctx, R, prover, pid, U))
+        try:
+            a = bisyncnative.archive_write_order_check(R, "C08/Archive::save", "C08/Archive::save/write-order")
+            if a["confirmed"]:
+                R.add("C08/native-archive-write-order", "violated", confirmed=True, replay_path=a["replay_path"], key=a["key"], detail=a["detail"])
+            else:
+                R.add("C08/native-archive-write-order", "holds", queries=0, solver_s=0.0, detail=a["detail"] + " (validation, not the deciding step)")
+        except Inconclusive as e:
+            R.add("C08/native-archive-write-order", "inconclusive", detail=str(e)[:300])
     native_validation(R, pid)
 
 
